@@ -81,6 +81,9 @@ def run(ctx):
                     fl = " ".join(str(x) for x in sp)
                     ops.append(f"fmt {t.name} {a} {u} {fl}"); meta.append(("fmt", t, a, u, sp, syms[u] if t.entry else ""))
                     kr.count(f"{be}:fmt:{'plain' if sp == specs[0] else 'flags'}:{kc.amount_class(be, a)}")
+                if t.entry and t.crate in ("quantities", "astronomical"):
+                    arg = '"' + "_".join(str(ord(c)) for c in syms[u]) + '"'
+                    ops.append(f"unit_from_symbol {t.name} {arg}"); meta.append(("resolve", t, None, u, None, syms[u]))
                 if t.entry:
                     sp = (rng.choice(FILLS), rng.choice(ALIGNS[1:]), 0, 0, rng.randint(0, 12), rng.choice(["-", 0, 1, 2, 5]))
                     ops.append(f"ufmt {t.name} {u} {' '.join(str(x) for x in sp)}"); meta.append(("ufmt", t, None, u, sp, syms[u]))
@@ -97,9 +100,16 @@ def run(ctx):
         for op, m, r in zip(ops, meta, impl):
             if m[0] == "replay" or r in ("PANIC", "UNSUPPORTED"):
                 continue
+            if m[0] == "resolve":
+                if r != f"Some {m[3]}":
+                    kr.violation(be, "the displayed symbol does not resolve to the stored unit", op, r, f"Some {m[3]} (symbol {m[5]!r})")
+                continue
             kr.nontrivial.add((be, op))
             if m[0] == "fmt":
                 judge_fmt(kr, be, op, m, dec(r))
+            elif m[0] == "resolve":
+                if r != f"Some {m[3]}":
+                    kr.violation(be, "the displayed symbol does not resolve to the stored unit", op, r, f"Some {m[3]} (symbol {m[5]!r})")
             elif m[0] == "ufmt":
                 _, t, _, u, sp, sym = m
                 s = dec(r)
